@@ -185,6 +185,7 @@ impl<'s> TaskRun<'s> {
             }
         }
         self.items.fetch_add(1, Ordering::Relaxed);
+        crate::fuse::hit(crate::fuse::Cb::Body);
         ItemRun { t: self, h: mix2(self.res_hash, self.st.id as u64), entity: 0 }
     }
     /// Entry view access for one entity (immutable): contributes to the task's own state.
@@ -421,6 +422,10 @@ fn run_program_inner<G: ParRig>(prog: Program<G>) {
         println!("{{\"program\":\"{}\",\"terminated\":true,\"pool_threads\":{},\"task_runs\":{:?}}}", prog.name, crate::par::POOL_SIZES[pool % crate::par::POOL_SIZES.len()], st.iter().map(|s| s.1).collect::<Vec<_>>());
         return;
     }
+    if args.cmd == "faults" {
+        run_faults::<G>(&prog, seed, nworlds, &args);
+        return;
+    }
     for wi in 0..nworlds {
         let kind = wi % 5;
         let (w0, ids) = make_world::<G>(kind, &mut rng);
@@ -627,6 +632,101 @@ fn run_program_inner<G: ParRig>(prog: Program<G>) {
         "start_orders_set": out.start_orders.iter().map(|s| format!("{}/{}", prog.name, s)).collect::<Vec<_>>(),
         "samples": out.samples,
         "violations": out.viols.iter().map(|(p, s, d)| serde_json::json!({"prop": p, "sig": s, "detail": d})).collect::<Vec<_>>(),
+    });
+    crate::cli::write_out(&args.str("out", "-"), &j.to_string());
+}
+
+
+/// C17 for schedules: inject a panic into the k-th system-body callback (task start or item) of
+/// `run_schedule`, on a real pool and under the serial join hook; afterwards read every stored
+/// value, and drop the world. Double drops / use of dropped values / allocator events are violations.
+fn run_faults<G: ParRig>(prog: &Program<G>, seed: u64, nworlds: usize, args: &crate::cli::Args) {
+    use crate::fuse::{self, bit, Cb};
+    use std::panic::{catch_unwind, AssertUnwindSafe};
+    crate::deser::install_panic_recorder();
+    let mut rng = Rng::new(mix2(seed, 0xfa17));
+    let mut cases = 0u64;
+    let mut fired = 0u64;
+    let mut panics = 0u64;
+    let mut viols: Vec<(String, String, String)> = Vec::new();
+    let mut sigs: BTreeSet<String> = BTreeSet::new();
+    let max_k = args.u64("max-k", 40);
+    for wi in 0..nworlds {
+        let kind = 1 + wi % 4;
+        let (w0, ids) = make_world::<G>(kind, &mut rng);
+        let ids = Arc::new(ids);
+        // dry run: number of body callbacks
+        let mut wd = w0.clone();
+        brood::verif::rayon_shim::set_join_hook(Some(join_hook));
+        ORDER.store(0, Ordering::SeqCst);
+        fuse::count_start(bit(Cb::Body));
+        let _ = (prog.run_schedule)(&mut wd, &ids, 0);
+        let n = fuse::count_stop();
+        brood::verif::rayon_shim::set_join_hook(None);
+        drop(wd);
+        let ks: Vec<u64> = if n <= max_k { (1..=n).collect() } else { (0..max_k).map(|i| 1 + i * n / max_k).collect() };
+        for k in ks {
+            for hooked in [true, false] {
+                let sink0 = crate::sink::count();
+                let mut w = w0.clone();
+                cases += 1;
+                let f0 = fuse::fired();
+                if hooked {
+                    brood::verif::rayon_shim::set_join_hook(Some(join_hook));
+                    ORDER.store((k % 3) as u64, Ordering::SeqCst);
+                    *DECISIONS.lock().unwrap() = Some(Rng::new(k));
+                }
+                fuse::arm(bit(Cb::Body), k);
+                let r = catch_unwind(AssertUnwindSafe(|| {
+                    if hooked {
+                        (prog.run_schedule)(&mut w, &ids, 0)
+                    } else {
+                        crate::par::pool(3).install(|| (prog.run_schedule)(&mut w, &ids, 0))
+                    }
+                }));
+                fuse::disarm();
+                brood::verif::rayon_shim::set_join_hook(None);
+                PATH.with(|p| p.borrow_mut().clear());
+                LOGS.lock().unwrap().clear();
+                if fuse::fired() != f0 {
+                    fired += 1;
+                }
+                if r.is_err() {
+                    panics += 1;
+                }
+                // aftermath: read everything, one more (unarmed) schedule run, drop
+                let after = catch_unwind(AssertUnwindSafe(|| {
+                    let _ = G::snapshot(&mut w);
+                    let _ = (prog.run_sequential)(&mut w, &ids, 0);
+                    let _ = G::snapshot(&mut w);
+                    drop(w);
+                }));
+                LOGS.lock().unwrap().clear();
+                let ctx = format!("program={} world#{wi}({}) k={k} mode={}", prog.name, world_kind_name(kind), if hooked { "hook_serial" } else { "rayon_pool_4" });
+                if let Err(e) = after {
+                    viols.push(("C17".into(), "unsafe_after_panic@World::run_schedule:Body".into(), format!("{ctx}: aftermath panicked: {}", crate::seq::panic_msg(&e))));
+                }
+                if crate::sink::count() != sink0 {
+                    for e in crate::sink::drain() {
+                        let prop = if e.kind == "tracker_inconsistency" { "HARNESS" } else { "C17" };
+                        viols.push((prop.into(), "unsafe_after_panic@World::run_schedule:Body".into(), format!("{ctx}: after a panic in a system body: {} ({})", e.kind, e.detail)));
+                    }
+                }
+                sigs.insert(format!("{}|{}|hooked={hooked}|panicked={}", prog.name, world_kind_name(kind), r.is_err()));
+            }
+        }
+    }
+    let _ = std::panic::take_hook();
+    let j = serde_json::json!({
+        "monitor": "sched-faults",
+        "program": prog.name,
+        "cases": cases,
+        "fuses_fired": fired,
+        "panics_caught": panics,
+        "sigs_set": sigs.iter().cloned().collect::<Vec<_>>(),
+        "by_op": {"World::run_schedule": cases},
+        "samples": [format!("{}: panic injected at body callback k of run_schedule ({} cases, {} fired), serial hook and 4-thread pool", prog.name, cases, fired)],
+        "violations": viols.iter().map(|(p, s, d)| serde_json::json!({"prop": p, "sig": s, "detail": d})).collect::<Vec<_>>(),
     });
     crate::cli::write_out(&args.str("out", "-"), &j.to_string());
 }
